@@ -67,6 +67,9 @@ def base_tree(rng):
         {"path": "md/tmp", "kind": "dir"},
         {"path": "md/new/1.msg", "data": "Subject: mdone\n\nhello\n"},
         {"path": "script.sh", "data": "#!/bin/sh\necho script-output\n", "mode": 0o755},
+        {"path": "args.sh", "data": "#!/bin/sh\nfor a; do echo \"[$a]\"; done\n", "mode": 0o755},
+        {"path": "noshebang.sh", "data": "echo no-interpreter-line\n", "mode": 0o755},
+        {"path": "dir1/tool.cgi", "data": "echo tool \"$@\"\n", "mode": 0o755},
         {"path": "\xae.txt", "data": "latin\n"},
         {"path": "arch.zip", "data": _zip_with_mail()},
         # directories that server-side features are apt to look into
@@ -375,6 +378,13 @@ def run(tier):
                    "arch.zip/secretdir/x.txt", "arch.zip/secret.txt.abstract"]:
             s = "/" + nm
             data, tls = gen.request_bytes(proto, s)
+            requests.append((proto, s, 1, False, data, tls, False))
+    # look-alike spellings of climbers and shell syntax in script arguments: ordinary name characters / plain data
+    for proto in gen.PROTOCOLS:
+        for s in gen.lookalike_selectors(rng, names) + gen.shell_selectors(["script.sh", "args.sh", "noshebang.sh", "dir1/tool.cgi"]):
+            if proto in ("gopher", "sgopher", "gopherplus", "sgopherplus") and ("\t" in s or "\n" in s or "\r" in s):
+                continue
+            data, tls = gen.request_bytes(proto, s, gplus=rng.choice(["+", "!", "$"]), force_encode=rng.random() < 0.3)
             requests.append((proto, s, 1, False, data, tls, False))
     # in-band prefixes the protocols interpret themselves, followed by climbers (these paths may bypass handler selection)
     for pre in ("/PYGOPHERD-HTTPPROTO-ICONS", "/GEMINI-QUERY", "/wap/PYGOPHERD-HTTPPROTO-ICONS", "/.icons", "/.cap"):
